@@ -86,7 +86,7 @@ theorem C14_parser_records (cfg : PCfg) (inp : Ast) (axis : String) (mt : NType)
     (ht : st.s.typ = .name) (hnf : (st.s.canBeFunc && isNodeType st.s) = false)
     (hnext : st.next = .ok st1) :
     parseNodeTest cfg inp axis mt st =
-      match nameInfo cfg.ns axis mt st.s.pfx (scannedLocal st st1) with
+      match nameInfo cfg.ns axis mt st.s.pfx (scannedLocal st) with
       | some a => .ok (.axis a inp, st1)
       | none => .error .prefixUndefined :=
   parseNodeTest_name_spec cfg inp axis mt st st1 ht hnf hnext
